@@ -157,3 +157,74 @@ pub fn check_assoc_triple<B: StrictOps>(f: &P, g: &P, h: &P, loc: &mut Local) {
     loc.nontrivial();
     report(loc, "assoc", l, r, json!({"f": f, "g": g, "h": h}));
 }
+
+// ---- the same laws in the lax representation ------------------------------------------------------
+// Results of lax operations (which carry pending unifications) are fed into further lax operations
+// WITHOUT quotienting in between; both sides are strictified at the end and compared up to isomorphism.
+
+use crate::laxconv::*;
+use open_hypergraphs::category::{Arrow, Monoidal, SymmetricMonoidal};
+
+type LO = LOpen<u8, u8>;
+
+fn lax_strict(x: &Option<LO>) -> Result<Option<P>, String> {
+    match x {
+        None => Ok(None),
+        Some(l) => catch(|| l.clone().to_strict()).and_then(|s| crate::onvec::decode_open(&s)).map(Some),
+    }
+}
+
+fn lax_report(loc: &mut Local, law: &str, l: Result<Option<LO>, String>, r: Result<Option<LO>, String>, case: Value) {
+    let (l, r) = match (l, r) {
+        (Ok(l), Ok(r)) => (lax_strict(&l), lax_strict(&r)),
+        (Err(p), _) | (_, Err(p)) => return loc.violation(&format!("lax-{}:panic", law), json!({"law": law, "case": case, "panic": p})),
+    };
+    match (l, r) {
+        (Ok(Some(l)), Ok(Some(r))) => {
+            if !iso(&l, &r) {
+                loc.violation(&format!("lax-law-fails:{}", law), json!({"law": law, "case": case, "left": l, "right": r}));
+            }
+            loc.outcome(&("lax", law, l.nodes.len(), l.edges.len()));
+        }
+        (Ok(None), Ok(None)) => {}
+        (l, r) => loc.violation(&format!("lax-law-undefined:{}", law), json!({"law": law, "case": case, "left": format!("{:?}", l), "right": format!("{:?}", r)})),
+    }
+}
+
+pub fn check_lax_laws(f: &PLax<u8, u8>, g: &PLax<u8, u8>, h: &PLax<u8, u8>, loc: &mut Local) {
+    let (lf, lg, lh) = (build_lax(f), build_lax(g), build_lax(h));
+    let case = json!({"f": f, "g": g, "h": h});
+    loc.trans(6);
+    // associativity (when the types chain)
+    if f.open.target_type() == g.open.source_type() && g.open.target_type() == h.open.source_type() {
+        let l = catch(|| Arrow::compose(&lf, &lg).and_then(|fg| Arrow::compose(&fg, &lh)));
+        let r = catch(|| Arrow::compose(&lg, &lh).and_then(|gh| Arrow::compose(&lf, &gh)));
+        lax_report(loc, "assoc", l, r, case.clone());
+        loc.nontrivial();
+    }
+    // interchange: (f;g) tensor (g;h)-like pairs when both chains exist: (f;g) | h  vs  (f|h1);(g|h2) with h = h;id
+    if f.open.target_type() == g.open.source_type() {
+        let idh = catch(|| <LO as Arrow>::identity(h.open.target_type()));
+        if let Ok(idh) = idh {
+            let l = catch(|| Arrow::compose(&lf, &lg).map(|fg| Monoidal::tensor(&fg, &lh)));
+            let r = catch(|| Arrow::compose(&Monoidal::tensor(&lf, &lh), &Monoidal::tensor(&lg, &idh)));
+            lax_report(loc, "interchange", l, r, case.clone());
+        }
+        // unit laws on a composite
+        let ida = catch(|| <LO as Arrow>::identity(f.open.source_type()));
+        if let Ok(ida) = ida {
+            let l = catch(|| Arrow::compose(&lf, &lg).and_then(|fg| Arrow::compose(&ida, &fg)));
+            let r = catch(|| Arrow::compose(&lf, &lg));
+            lax_report(loc, "id-left-on-composite", l, r, case.clone());
+        }
+    }
+    // naturality of the lax symmetry: (f | h) ; twist(B, D) = twist(A, C) ; (h | f)
+    let (a, b, c, d) = (f.open.source_type(), f.open.target_type(), h.open.source_type(), h.open.target_type());
+    let l = catch(|| Arrow::compose(&Monoidal::tensor(&lf, &lh), &<LO as SymmetricMonoidal>::twist(b.clone(), d.clone())));
+    let r = catch(|| Arrow::compose(&<LO as SymmetricMonoidal>::twist(a.clone(), c.clone()), &Monoidal::tensor(&lh, &lf)));
+    lax_report(loc, "twist-natural", l, r, case.clone());
+    // self-inverse
+    let l = catch(|| Arrow::compose(&<LO as SymmetricMonoidal>::twist(a.clone(), b.clone()), &<LO as SymmetricMonoidal>::twist(b.clone(), a.clone())));
+    let r = catch(|| Some(<LO as Arrow>::identity(a.iter().chain(b.iter()).cloned().collect())));
+    lax_report(loc, "twist-self-inverse", l, r, case);
+}
